@@ -215,7 +215,7 @@ int vh_views = 0;
  * library itself does with the quadrants of a matrix), and some windows are windows of windows */
 static __thread mzd_t *shared_parent = NULL;
 static __thread int shared_slotw = 0, shared_rows = 0, shared_r0 = 0, shared_used = 0;
-int vh_force_w0 = -1;   /* >= 0: the next windows start at exactly this word offset (sweeps over row alignments) */
+__thread int vh_force_w0 = -1;   /* >= 0: the next windows start at exactly this word offset (sweeps over row alignments) */
 void vh_mk_reset(void) { shared_parent = NULL; shared_used = 0; }
 
 mzd_t *vh_mk(rci_t m, rci_t n, int force) {
